@@ -88,6 +88,16 @@ pub fn cmd_edverify(arg: &str) -> String {
     }
 }
 
+/// edpoint <pk> -> 1 if the 32 bytes decode to a curve point, 0 otherwise (lengths != 32: 0)
+pub fn cmd_edpoint(arg: &str) -> String {
+    let b = unhex(arg.trim());
+    let p: Result<[u8; 32], _> = b.as_slice().try_into();
+    match p {
+        Ok(p) => (VerifyingKey::from_bytes(&p).is_ok() as u8).to_string(),
+        Err(_) => "0".into(),
+    }
+}
+
 pub fn cmd_sha512(arg: &str) -> String {
     let d = ring::digest::digest(&ring::digest::SHA512, &unhex(arg.trim()));
     hex(d.as_ref())
